@@ -712,7 +712,11 @@ func (g *Gen) havocElems(x Term) {
 	h, s := g.elemHeap(et)
 	srt := "(Array Int (Array Int " + s + "))"
 	hv := g.sv(h, srt)
-	g.setSV(h, srt, fmt.Sprintf("(store %s %s %s)", hv, arr, g.newConst("hv", "(Array Int "+s+")")))
+	row := g.newConst("hv", "(Array Int "+s+")")
+	if h == "E_uint8" {
+		g.assumeRaw(byteRowRange(row)) // the havocked row of a byte array holds bytes
+	}
+	g.setSV(h, srt, fmt.Sprintf("(store %s %s %s)", hv, arr, row))
 }
 
 // defaultEffects: frame rule for a callee without a (framed) contract.
